@@ -199,7 +199,18 @@ def numba_thread_differential(pid, seed, cat, p5, info):
         if e["backend"] == "numpy" and not e.get("expect_error") and not e["private"] \
                 and e["family"] not in ("viewshed", "local", "generators", "polygonize"):
             firsts.setdefault((e["op"], util.canon(e["params"])[:60]), e)
-    entries = list(firsts.values())[:60]
+    # entries of the modules that host the parallel dispatchers first
+    mods = {n.split(".")[1] for n in p5 if n.count(".") >= 2}
+
+    def hosted(e):
+        import inspect
+        from .cases import OPS
+        try:
+            src = inspect.getsource(OPS[e["op"]])
+        except Exception:
+            src = ""
+        return any(m in (e["family"], e["op"]) or m in src for m in mods)
+    entries = sorted(firsts.values(), key=lambda e: (0 if hosted(e) else 1, e["id"]))[:60]
     val, err = worker_hist.in_child(lambda: realthreads.numba_threads_differential(cat, entries), timeout=1500)
     out_info = {"parallel_dispatchers": p5, "entries_tried": len(entries),
                 "note": "observation of real Numba threads on enlarged rasters; not simulation; a clean result is not evidence"}
